@@ -295,7 +295,7 @@ func (m *c01Mon) Observe(pre, post *cdpSnap, e *cdpEvent) {
 	m.rec.Max("max_open_vaults", int64(len(post.Vaults)))
 }
 
-func cdpSteps() int { return ev.Pick(900, 6000) }
+func cdpSteps() int { return ev.Pick(2500, 20000) }
 
 func TestC01(t *testing.T) {
 	rec := ev.New("C01", "exploration", "seeded mixed CDP workload (vault/stable-mint/locker messages with class-drawn amounts, time gaps, oracle price moves, sweeps of both liquidation generations, bids) on several fee configurations; after every tx and block the custody, count and per-product total identities are recomputed from the records; distinct = (open-vault bucket, stable vaults, awaiting set size, op, outcome, block context)")
@@ -305,7 +305,7 @@ func TestC01(t *testing.T) {
 		variant := ev.ShardNo()*runs + run
 		u := newCDP(t, cdpOpts{variant: variant})
 		rnd := rng("C01", run)
-		cfg := cdpCfg{priceMoves: run%2 == 1 || variant%3 == 0, bids: true, lockers: true, unsolicited: true, liquidateMsg: true}
+		cfg := cdpCfg{priceMoves: run%2 == 1 || variant%3 == 0, bids: true, lockers: true, unsolicited: true, liquidateMsg: true, reserve: variant%2 == 0}
 		r := newCdpRunner(u, rnd, rec, cfg, newC01Mon(u, rec))
 		r.run(cdpSteps())
 		if run == 0 {
